@@ -1,6 +1,9 @@
 pub mod ctx;
 pub mod mon;
 pub mod rng;
+pub mod shrink;
+pub mod stream;
+pub mod gen_stream;
 pub mod props;
 
 use ctx::Ctx;
